@@ -665,4 +665,139 @@ func checkC14(c *Ctx, r *Report) {
 		r7.guard(f, "delete(s.peers, id)", pdel, "len(conns) == 0", edgeExcl(lenOfConns(nil), isZero, ordGT, ordLT), nil)
 		r7.guard(f, "delete(s.peers, id)", pdel, "temp", edgeBool(isLoadOfField(piT+".temp"), true), nil)
 	}
+
+	// ---- R8 ---------------------------------------------------------------
+	r8 := r.Rule("C14-R8", "E1", 6, "protection and trimming take effect: Protect records the tag under the peer (creating the peer's tag set only when it has none); Unprotect removes exactly that tag and forgets the peer with its last one; trim closes every connection getConnsToClose selected; TrimOpenConns and ForceTrim reach the trim")
+	bm := func(n string) string { return "(*" + cmP + ".BasicConnMgr)." + n }
+	protK := cmP + ".BasicConnMgr.protected"
+	isTagSet := func(v ssa.Value) bool {
+		// the peer's tag set: what the lookup in cm.protected yielded, or the fresh map made for it
+		return derivesFrom(v, func(x ssa.Value) bool {
+			if ex, ok := x.(*ssa.Extract); ok && ex.Index == 0 {
+				if lk, isL := ex.Tuple.(*ssa.Lookup); isL && isLoadOfField(protK)(strip2(lk.X)) {
+					return true
+				}
+			}
+			if lk, isL := x.(*ssa.Lookup); isL && !lk.CommaOk && isLoadOfField(protK)(strip2(lk.X)) {
+				return true
+			}
+			_, isMk := x.(*ssa.MakeMap)
+			return isMk
+		})
+	}
+	if f := r8.need(bm("Protect")); f != nil {
+		idP, tagP := f.Params[1], f.Params[2]
+		isP := func(v ssa.Value, p *ssa.Parameter) bool {
+			v = resolveLoad(strip2(v))
+			return v == ssa.Value(p) || isParamCellLoad(c, v, p)
+		}
+		recs := findInstrs(f, func(in ssa.Instruction) bool {
+			mu, ok := in.(*ssa.MapUpdate)
+			return ok && isTagSet(mu.Map) && !isLoadOfField(protK)(strip2(mu.Map)) && isP(mu.Key, tagP)
+		})
+		r8.mustPass(f, bm("Protect")+": the tag is recorded in the peer's tag set", &Cut{Fn: f, Target: isRetInstr, Sep: inSet(recs)}, len(recs))
+		mks := findInstrs(f, func(in ssa.Instruction) bool { _, ok := in.(*ssa.MakeMap); return ok })
+		isMiss := func(v ssa.Value) bool {
+			ex, ok := resolveLoad(strip2(v)).(*ssa.Extract)
+			if !ok || ex.Index != 1 {
+				return false
+			}
+			lk, ok := ex.Tuple.(*ssa.Lookup)
+			return ok && isLoadOfField(protK)(strip2(lk.X))
+		}
+		r8.guard(f, "make a tag set", mks, "the peer has none", edgeBool(isMiss, false), nil)
+		for _, mk := range mks {
+			reg := func(in ssa.Instruction) bool {
+				mu, ok := in.(*ssa.MapUpdate)
+				return ok && isLoadOfField(protK)(strip2(mu.Map)) && isP(mu.Key, idP) && resolveLoad(strip2(mu.Value)) == mk.(ssa.Value)
+			}
+			r8.mustPass(f, bm("Protect")+": a new tag set is registered under the peer", &Cut{Fn: f, From: []ssa.Instruction{mk}, Target: isRetInstr, Sep: reg}, 1)
+		}
+		r8.Check(len(mks) == 1, bm("Protect")+": one construction of a tag set", f.Pos(), len(mks), "", "", "")
+	}
+	if f := r8.need(bm("Unprotect")); f != nil {
+		idP, tagP := f.Params[1], f.Params[2]
+		isP := func(v ssa.Value, p *ssa.Parameter) bool {
+			v = resolveLoad(strip2(v))
+			return v == ssa.Value(p) || isParamCellLoad(c, v, p)
+		}
+		isFound := func(v ssa.Value) bool {
+			ex, ok := resolveLoad(strip2(v)).(*ssa.Extract)
+			if !ok || ex.Index != 1 {
+				return false
+			}
+			lk, ok := ex.Tuple.(*ssa.Lookup)
+			return ok && isLoadOfField(protK)(strip2(lk.X))
+		}
+		dels := findInstrs(f, func(in ssa.Instruction) bool {
+			if !isCallTo(in, "builtin.delete") {
+				return false
+			}
+			a := callArgs(in.(ssa.CallInstruction))
+			return len(a) == 2 && isTagSet(a[0]) && !isLoadOfField(protK)(strip2(a[0])) && isP(a[1], tagP)
+		})
+		var from []CFGEdge
+		for _, b := range blocksDeep(f) {
+			for si := range b.Succs {
+				if edgeBool(isFound, true)(b, si) {
+					from = append(from, CFGEdge{b, si})
+				}
+			}
+		}
+		r8.mustPass(f, bm("Unprotect")+": the tag is deleted from the peer's tag set whenever the peer has one", &Cut{Fn: f, FromEdges: from, Target: isRetInstr, Sep: inSet(dels)}, len(dels))
+		r8.Check(len(from) >= 1 && len(dels) == 1, bm("Unprotect")+": lookup and deletion sites", f.Pos(), len(from)+len(dels), "", "", "")
+		forget := findInstrs(f, func(in ssa.Instruction) bool {
+			if !isCallTo(in, "builtin.delete") {
+				return false
+			}
+			a := callArgs(in.(ssa.CallInstruction))
+			return len(a) == 2 && isLoadOfField(protK)(strip2(a[0])) && isP(a[1], idP)
+		})
+		isEmpty := eqEdge(func(v ssa.Value) bool {
+			ci := isResultOfCall(v, 0, "builtin.len")
+			return ci != nil && isTagSet(ci.Common().Args[0])
+		}, func(v ssa.Value) bool { k, ok := constInt(v); return ok && k == 0 }, true)
+		r8.guard(f, "forget the peer", forget, "its tag set is empty", isEmpty, nil)
+		var fromE []CFGEdge
+		for _, b := range blocksDeep(f) {
+			for si := range b.Succs {
+				if isEmpty(b, si) {
+					fromE = append(fromE, CFGEdge{b, si})
+				}
+			}
+		}
+		r8.mustPass(f, bm("Unprotect")+": a peer whose last tag went is forgotten", &Cut{Fn: f, FromEdges: fromE, Target: isRetInstr, Sep: inSet(forget)}, len(fromE))
+	}
+	if f := r8.need(bm("trim")); f != nil {
+		sel := findInstrs(f, callPred(bm("getConnsToClose")))
+		closes := findInstrs(f, func(in ssa.Instruction) bool {
+			if !calleeNameIs(in, "Close", "CloseWithError") {
+				return false
+			}
+			h := iterationOf(in.Parent(), in.Block())
+			return h != nil && len(sel) == 1 && derivesFrom(rangedOverOf(h), func(v ssa.Value) bool { return v == sel[0].(ssa.Value) })
+		})
+		okT := len(sel) == 1 && len(closes) >= 1
+		w := ""
+		n := 0
+		if okT {
+			h := iterationOf(closes[0].Parent(), closes[0].Block())
+			var body []CFGEdge
+			for si, sc := range h.Succs {
+				if sc.Dominates(closes[0].Block()) || sc == closes[0].Block() {
+					body = append(body, CFGEdge{h, si})
+				}
+			}
+			w, n = (&Cut{Fn: closes[0].Parent(), FromEdges: body, Sep: inSet(closes), Target: func(in ssa.Instruction) bool {
+				return isRetInstr(in) || (in.Block() == h && instrIndex(in) == 0)
+			}}).Run(c)
+		}
+		r8.Check(okT && w == "", bm("trim")+": every connection getConnsToClose selected is closed", f.Pos(), n+1, "", "the trim selects and closes nothing: the connection count stays above the high water mark", w)
+	}
+	for _, k := range []struct{ fn, callee string }{{"TrimOpenConns", "doTrim"}, {"ForceTrim", "getConnsToCloseEmergency"}, {"doTrim", "trim"}} {
+		if f := r8.need(bm(k.fn)); f != nil {
+			calls := findInstrs(f, callPred(bm(k.callee)))
+			r8.Check(len(calls) >= 1, bm(k.fn)+": reaches "+k.callee, f.Pos(), len(calls), "", "a requested trim does nothing", "")
+		}
+	}
 }
